@@ -17,6 +17,7 @@ import (
 	dssync "github.com/ipfs/go-datastore/sync"
 	dht "github.com/libp2p/go-libp2p-kad-dht"
 	pb "github.com/libp2p/go-libp2p-kad-dht/pb"
+	"github.com/libp2p/go-libp2p-kad-dht/records"
 	recpb "github.com/libp2p/go-libp2p-record/pb"
 	"github.com/libp2p/go-libp2p/core/host"
 	"github.com/libp2p/go-libp2p/core/peer"
@@ -65,6 +66,8 @@ type Scenario struct {
 	Cancel   bool         `json:"cancel"` // cancellation is one of the scheduler's options
 	OptProv  bool         `json:"optprov"`
 	Timeout  int          `json:"timeout"` // seconds; 0 = no deadline on the op ctx
+	NAddrs   int          `json:"naddrs"`   // number of host addresses (0/1 = one, -1 = none)
+	AddrDrop []int        `json:"addrdrop"` // indices of host addresses removed by the address filter
 	Honest   bool         `json:"honest"`  // every peer answers with the K nearest peers of a k-bucket-complete table
 	Full     bool         `json:"full"`    // honest and every peer knows every other peer
 }
@@ -130,6 +133,7 @@ type lookupEnv struct {
 	start  time.Time
 	reject map[peer.ID]bool
 	dstore ds.Batching
+	hostAddrs []ma.Multiaddr
 }
 
 func (e *lookupEnv) now() int { return int(time.Since(e.start) / time.Millisecond) }
@@ -143,6 +147,9 @@ func (e *lookupEnv) script(p peer.ID) *PeerScript {
 	}
 	return &e.sc.Scripts[r-1]
 }
+
+// lookupKeyFor is the key of value / closest-peers scenarios.
+func lookupKeyFor(sc *Scenario) string { return fmt.Sprintf("/v/key-%d", sc.Seed) }
 
 func typName(t pb.Message_MessageType) string { return t.String() }
 
@@ -165,13 +172,20 @@ func buildLookupEnv(t *testing.T, sc *Scenario) *lookupEnv {
 		e.key = string(h)
 		e.cid = cid.NewCidV1(cid.Raw, h)
 	default:
-		e.key = fmt.Sprintf("/v/key-%d", sc.Seed)
+		e.key = lookupKeyFor(sc)
 	}
 	e.u = sim.NewUniverse(self, e.key, peers)
 	for _, rk := range sc.Reject {
 		e.reject[e.u.P(rk)] = true
 	}
-	e.host = sim.NewFakeHost(self, []ma.Multiaddr{sim.DefaultAddr(0)})
+	e.hostAddrs = []ma.Multiaddr{sim.DefaultAddr(0)}
+	for i := 1; i < sc.NAddrs; i++ {
+		e.hostAddrs = append(e.hostAddrs, ma.StringCast(fmt.Sprintf("/ip4/10.0.%d.1/tcp/4001", i)))
+	}
+	if sc.NAddrs < 0 {
+		e.hostAddrs = nil
+	}
+	e.host = sim.NewFakeHost(self, e.hostAddrs)
 	label := func(p peer.ID, kind, typ string) string {
 		return fmt.Sprintf("%04d/%s/%s", e.u.Rank(p), kind, typ)
 	}
@@ -198,7 +212,38 @@ func buildLookupEnv(t *testing.T, sc *Scenario) *lookupEnv {
 			e.tr.AddBuf(1, it.Label, "Sent", "p", e.u.Rank(it.Payload.(peer.ID)), "kind", "dial", "typ", "", "ts", e.now())
 		default:
 			rpc := it.Payload.(*sim.RPC)
-			e.tr.AddBuf(1, it.Label, "Sent", "p", e.u.Rank(rpc.Peer), "kind", it.Kind, "typ", typName(rpc.Msg.GetType()), "ts", e.now())
+			kv := []any{"p", e.u.Rank(rpc.Peer), "kind", it.Kind, "typ", typName(rpc.Msg.GetType()), "ts", e.now()}
+			switch rpc.Msg.GetType() {
+			case pb.Message_PUT_VALUE:
+				rec := rpc.Msg.GetRecord()
+				kv = append(kv, "val", string(rec.GetValue()), "keyok", string(rec.GetKey()) == e.key && string(rpc.Msg.GetKey()) == e.key,
+					"haslocal", e.localValue())
+			case pb.Message_ADD_PROVIDER:
+				provs := []int{}
+				addrsOK := true
+				want := e.wantAddrs()
+				for _, pp := range rpc.Msg.GetProviderPeers() {
+					provs = append(provs, e.u.Rank(peer.ID(pp.GetId())))
+					got := map[string]bool{}
+					for _, a := range pp.GetAddrs() {
+						got[string(a)] = true
+					}
+					if len(got) != len(want) || len(got) == 0 {
+						addrsOK = false
+					}
+					for a := range want {
+						if !got[a] {
+							addrsOK = false
+						}
+					}
+				}
+				kv = append(kv, "provs", provs, "addrsok", addrsOK, "keyok", string(rpc.Msg.GetKey()) == e.key)
+			case pb.Message_FIND_NODE, pb.Message_GET_VALUE, pb.Message_GET_PROVIDERS:
+				if e.sc.Op == "putvalue" {
+					kv = append(kv, "haslocal", e.localValue())
+				}
+			}
+			e.tr.AddBuf(1, it.Label, "Sent", kv...)
 		}
 	}
 	e.gate.OnAbort = func(it *sim.Parked) {
@@ -228,6 +273,9 @@ func buildLookupEnv(t *testing.T, sc *Scenario) *lookupEnv {
 	if sc.OptProv {
 		opts = append(opts, dht.EnableOptimisticProvide())
 	}
+	if len(sc.AddrDrop) > 0 {
+		opts = append(opts, dht.AddressFilter(e.filterAddrs))
+	}
 	d, err := dht.New(e.host, opts...)
 	if err != nil {
 		t.Fatalf("dht.New: %v", err)
@@ -244,6 +292,48 @@ func buildLookupEnv(t *testing.T, sc *Scenario) *lookupEnv {
 		_, _ = d.RoutingTable().TryAddPeer(p, true, false)
 	}
 	return e
+}
+
+// localValue reads the value currently stored locally for the scenario key
+// ("" if none), through the public ValueStore API with a permissive validator.
+func (e *lookupEnv) localValue() string {
+	vs := records.NewValueStore(e.dstore, anyValidator{}, 0)
+	rec, err := vs.Get(context.Background(), e.key)
+	if err != nil || rec == nil {
+		return ""
+	}
+	return string(rec.GetValue())
+}
+
+// wantAddrs is the set of addresses an ADD_PROVIDER must carry: the host's
+// addresses that pass the scenario's address filter.
+func (e *lookupEnv) wantAddrs() map[string]bool {
+	m := map[string]bool{}
+	for _, a := range e.filterAddrs(e.host.Addrs()) {
+		m[string(a.Bytes())] = true
+	}
+	return m
+}
+
+// filterAddrs is the scenario's address filter (drops the addresses whose
+// index in the host's address list is in AddrDrop).
+func (e *lookupEnv) filterAddrs(as []ma.Multiaddr) []ma.Multiaddr {
+	if len(e.sc.AddrDrop) == 0 {
+		return as
+	}
+	drop := map[string]bool{}
+	for _, i := range e.sc.AddrDrop {
+		if i < len(e.hostAddrs) {
+			drop[string(e.hostAddrs[i].Bytes())] = true
+		}
+	}
+	out := []ma.Multiaddr{}
+	for _, a := range as {
+		if !drop[string(a.Bytes())] {
+			out = append(out, a)
+		}
+	}
+	return out
 }
 
 // rtRanks lists the current routing-table members as sorted ranks.
@@ -281,9 +371,10 @@ func (e *lookupEnv) release(it *sim.Parked) {
 			out = errors.New("sim: dial failed")
 			res = "fail"
 		}
-		e.tr.Add("Deliver", "p", e.u.Rank(p), "kind", "dial", "typ", "", "out", res,
-			"closer", []int{}, "provs", []int{}, "val", "", "vkey", true, "ts", e.now())
-		e.gate.Release(it, out)
+		if e.gate.Release(it, out) {
+			e.tr.Add("Deliver", "p", e.u.Rank(p), "kind", "dial", "typ", "", "out", res,
+				"closer", []int{}, "provs", []int{}, "val", "", "vkey", true, "vvalid", false, "vrank", -1, "ts", e.now())
+		}
 		return
 	}
 	rpc := it.Payload.(*sim.RPC)
@@ -344,9 +435,13 @@ func (e *lookupEnv) release(it *sim.Parked) {
 		}
 		o.Resp = resp
 	}
-	e.tr.Add("Deliver", "p", e.u.Rank(rpc.Peer), "kind", it.Kind, "typ", typName(typ), "out", res,
-		"closer", closer, "provs", provs, "val", val, "vkey", vkey, "ts", e.now())
-	e.gate.Release(it, o)
+	vvalid, vrank := valRank([]byte(val))
+	// the events caused by the release are buffered until the next flush, so
+	// logging right after a successful release keeps the causal order
+	if e.gate.Release(it, o) {
+		e.tr.Add("Deliver", "p", e.u.Rank(rpc.Peer), "kind", it.Kind, "typ", typName(typ), "out", res,
+			"closer", closer, "provs", provs, "val", val, "vkey", vkey, "vvalid", vvalid, "vrank", vrank, "ts", e.now())
+	}
 }
 
 func errClass(err error) string {
